@@ -42,17 +42,12 @@ Proof.
   unfold spec_C03_locate. destruct (Z.eqb (rcount (oldr h)) 0) eqn:Hc.
   - apply Z.eqb_eq in Hc.
     destruct (insertion_ok f h off lo) eqn:Hi.
-    + unfold insertion_ok in Hi. rewrite !andb_true_iff, negb_true_iff, !Z.leb_le in Hi.
-      destruct Hi as [[Hn H1] H2].
-      rewrite (locate_insertion_complete f h ws off F lo Hc); [|intros [A B]|lia].
-      * cbn [obs_of lline lfuzz loffset]. rewrite Z2Nat.id by lia. rewrite Z.eqb_refl. reflexivity.
-      * rewrite A in Hn. rewrite Z.eqb_refl in Hn. cbn in Hn. destruct f; [congruence|discriminate].
+    + unfold insertion_ok in Hi. rewrite !andb_true_iff, !Z.leb_le in Hi. destruct Hi as [H1 H2].
+      rewrite (locate_insertion_complete f h ws off F lo Hc); [|lia].
+      cbn [obs_of lline lfuzz loffset]. rewrite Z2Nat.id by lia. rewrite Z.eqb_refl. reflexivity.
     + destruct (locate_hunk f h ws off F lo) as [loc|] eqn:E; [|reflexivity]. exfalso.
-      revert E. unfold locate_hunk. apply Z.eqb_eq in Hc. rewrite Hc.
-      unfold insertion_ok, stated_pos in Hi. rewrite Hc in Hi. unfold expected_line_number. rewrite Hc.
-      destruct (Z.eqb (rstart (oldr h)) 0 && negb (is_nil f)); [discriminate|]. cbn [negb andb] in Hi.
-      destruct (_ || _) eqn:E2; [discriminate|]. apply orb_false_iff in E2. destruct E2 as [A B].
-      apply Z.ltb_ge in A, B. apply andb_false_iff in Hi. destruct Hi as [Hi|Hi]; apply Z.leb_gt in Hi; lia.
+      destruct (locate_insertion _ _ _ _ _ _ _ E Hc) as (H1 & _ & _ & H4).
+      unfold insertion_ok in Hi. apply andb_false_iff in Hi. destruct Hi as [Hi|Hi]; apply Z.leb_gt in Hi; lia.
   - apply Z.eqb_neq in Hc.
     destruct (locate_hunk f h ws off F lo) as [loc|] eqn:E; cbn [obs_of].
     + apply andb_true_iff. split.
